@@ -649,7 +649,7 @@ def check(prog, rep):
                         if ok is None:
                             rep.undecided(f"{fi.name}:minimize({kw.arg}=): {why}")
                             continue
-                        rep.ob("R19.4", f"{fi.name}:minimize({kw.arg}=)", ok, why, loc=f"{fi.module.rel}:{n.lineno}", detail="origin")
+                        rep.ob("R19.4", f"{fi.name}:minimize({kw.arg}=)", ok, why, loc=f"{fi.module.rel}:{n.lineno}", detail="origin", robust=True)   # False only for a positively hand-made callable; untraceable -> None above
             if isinstance(n, ast.Dict):
                 keys = [k.value for k in n.keys if isinstance(k, ast.Constant)]
                 if "jac" in keys and "fun" in keys:
@@ -660,7 +660,7 @@ def check(prog, rep):
                         rep.undecided(f"{fi.name}:constraint-dict: {why}")
                         continue
                     typ = n.values[keys.index("type")] if "type" in keys else None
-                    rep.ob("R19.4", f"{fi.name}:constraint-dict[{src(typ) if typ is not None else '?'}:{_sign(v)}]", ok, why, loc=f"{fi.module.rel}:{n.lineno}", detail="origin")
+                    rep.ob("R19.4", f"{fi.name}:constraint-dict[{src(typ) if typ is not None else '?'}:{_sign(v)}]", ok, why, loc=f"{fi.module.rel}:{n.lineno}", detail="origin", robust=True)
     rep.expect_min("R19.1", 44)
     rep.expect_min("R19.2", 14)
     rep.expect_min("R19.3", 2)
